@@ -1,10 +1,10 @@
 CONSTANTS
-  MaxA = 3
-  Budget = 2
+  MaxA = 2
+  Budget = 1
   MaxLoop = 10
-  HasTry = FALSE
-  Behaviours = {"ok", "5xx", "close", "never", "connfail", "okclose"}
-  Defects = {}
+  HasTry = TRUE
+  Behaviours = {"ok", "5xx", "close", "never", "connfail"}
+  Defects = {"PerTryTimerSurvivesRetry"}
 SPECIFICATION Spec
 INVARIANTS AtMostOneReply NoFallOut EndsProperly GaugeExact AttemptsBound RetriesReturned RetriesBounded PerTryTimerOnlyWhileTryOpen
 PROPERTIES NoAttemptAfterReply RefinesAbs
